@@ -73,15 +73,19 @@ def atoms(p, acc):
     return acc
 
 
+MODPATH = {}  # file -> module path segments (filled by module_tree)
+
+
 def module_tree(crate_src, recs):
     """-> ({file: inherited cfg texts}, [unresolved module declarations])"""
     inh, unresolved = {}, []
-    todo = [(os.path.join(crate_src, "lib.rs"), [])]
+    todo = [(os.path.join(crate_src, "lib.rs"), [], [])]
     while todo:
-        f, I = todo.pop()
+        f, I, mp = todo.pop()
         if f in inh:
             continue
         inh[f] = I
+        MODPATH[f] = mp
         base = os.path.dirname(f) if os.path.basename(f) in ("lib.rs", "mod.rs") else f[:-3]
         globs = collections.defaultdict(list)  # module name -> cfgs of `pub use name::*` in the same scope
         for d in recs.get(f, []):
@@ -102,7 +106,7 @@ def module_tree(crate_src, recs):
                 if not d["extra"].endswith("|pub") and len(g) == 1:
                     # a crate-private module whose items are exported by exactly one glob re-export: they are visible only when that is
                     extra = [c for c in g[0] if c not in d["own"]]
-                todo.append((child, I + d["enclosing"] + d["own"] + extra))
+                todo.append((child, I + d["enclosing"] + d["own"] + extra, mp + [m for m in d["module"].split("::") if m] + [d["name"]]))
     return inh, unresolved
 
 
